@@ -402,6 +402,10 @@ err_t btokSMCmdUnwrap(apdu_cmd_t* cmd, size_t* size, const octet apdu[],
 			rdf_len_len = 1;
 		else
 			rdf_len_len = 2;
+		// форма Le* должна соответствовать форме Lc*
+		if (rdf_len_len == 1 && cdf_len_len != 1 ||
+			rdf_len_len == 2 && cdf_len_len != 3)
+			return ERR_BAD_APDU;
 		if (count != 4 + cdf_len_len + len + rdf_len_len ||
 			!memIsZero(apdu + 4 + cdf_len_len + len, rdf_len_len))
 			return ERR_BAD_APDU;
